@@ -47,6 +47,8 @@ v(B + "down_align", "contract", ["C11"], "src/bumping.rs::down_align", _BT, "r =
 v(B + "up_align_unchecked", "contract", ["C11"], "src/bumping.rs::up_align_unchecked", _BT, "addr+align-1 <= MAX ==> r == up(addr, align)")
 v(B + "up_align", "contract", ["C11"], "src/bumping.rs::up_align", _BT, "None iff addr == 0 or up(addr,align) > MAX; Some(up(addr,align))")
 v(B + "unlikely", "contract", ["C11"], "src/bumping.rs::unlikely", _BT, "r == condition")
+v("kernel::c12_typed::typed_fresh_chunk_fits", "lemma", ["C12", "C05"], None, [],
+  "for EVERY allocator type A and settings S: the chunk ChunkSize::<A,S>::from_capacity(l) sizes, granted with at least that size and recorded through align_allocation_size, has room for l in bump direction; recorded size between requested and granted, multiple of 16, >= header")
 # ---- src/chunk/size.rs: the typed layer over ChunkSizeConfig (unbounded, every A and S)
 Z = "kernel::chunk_size::"
 _ZT = ["h_kernel::k_fresh_chunk_fits"]
